@@ -121,7 +121,7 @@ def obligation_for(unit, g, d):
         return 'trouble', msg
     if kind is None:
         return 'ignore', None
-    spans = d.get('spans', [])
+    spans = [_resolve_span(sp, g) for sp in d.get('spans', [])]
     prim = [s for s in spans if s.get('is_primary')]
     sec = [s for s in spans if not s.get('is_primary')]
     if not prim:
@@ -199,6 +199,27 @@ def obligation_for(unit, g, d):
     }
 
 
+def _resolve_span(sp, g):
+    """A span inside a macro expansion (panic!, unreachable!, assert!, format!) points into the macro's own
+    file; walk the expansion chain to the call site inside the generated unit file."""
+    unit_file = getattr(g, 'gen_file_name', None)
+    cur = sp
+    hops = 0
+    while cur is not None and hops < 12:
+        fn = cur.get('file_name', '')
+        if unit_file is None or os.path.basename(fn) == unit_file:
+            if cur is not sp:
+                out = dict(cur)
+                out['is_primary'] = sp.get('is_primary')
+                out['label'] = sp.get('label')
+                return out
+            return sp
+        exp = cur.get('expansion')
+        cur = exp.get('span') if exp else None
+        hops += 1
+    return sp
+
+
 def _callee_hint(txt):
     m = re.search(r'\.(unwrap|expect)\(', txt)
     if m:
@@ -223,6 +244,7 @@ def run_unit(unit, repo='/repo', tier='quick', rlimit=30, seed=None, canaries=Tr
         res.trouble.append('%s: %s' % (type(e).__name__, e))
         res.wall_s = time.time() - t0
         return res
+    g.gen_file_name = unit + '.rs'
     res.gen = g
     res.notes = list(getattr(g, 'dropped_loop_sections', []))
     path = os.path.join(WORK, unit + '.rs')
